@@ -1,4 +1,5 @@
-"""Per-property configuration of bin/vcheck."""
+"""Per-property configuration of bin/vcheck: one file per property under bin/props/<ID>.py defining CFG and TEXT."""
+import os, glob, importlib.machinery, importlib.util
 
 COMMON_TRUSTED = [
     'Coq 8.16.1 kernel incl. vm_compute (used to evaluate models on harness cases and for finite reflexivity lemmas); native_compute is not used; no extraction',
@@ -7,17 +8,13 @@ COMMON_TRUSTED = [
     'correspondence harness /verif/harness (generators, projectors, Gallina printer) and the driver\'s parsing of `Print M`',
 ]
 
-PROPS = {
-    'C18': dict(
-        gen=['ChrootOps'],
-        prop_file='Properties/C18.v',
-        coq_extra=['Chroot/Run.v'],
-        harness='c18',
-        trusted=[
-            "Go's path/filepath (Clean/Join/Rel/Abs on Unix) is modelled in Chroot/Path.v, not verified; the model is tied by exhaustive small-alphabet correspondence through the real ChrootFs over a recording afero.Fs",
-            'the string-to-segment splitting (which spellings are "", ".", "..") is done by the harness',
-            'afero and the inner filesystem; lexical confinement only: symlinks inside the root and the remote-import cache are not modelled',
-        ],
-        assumptions=['paths are compared lexically (segment-wise) after cleaning, as the property spells them; Unix separator'],
-    ),
-}
+PROPS, TEXT = {}, {}
+for _p in sorted(glob.glob(os.path.join(os.path.dirname(os.path.abspath(__file__)), 'props', 'C*.py'))):
+    _id = os.path.basename(_p)[:-3]
+    _l = importlib.machinery.SourceFileLoader('vprop_' + _id, _p)
+    _s = importlib.util.spec_from_loader('vprop_' + _id, _l)
+    _m = importlib.util.module_from_spec(_s)
+    _l.exec_module(_m)
+    if getattr(_m, 'ENABLED', True):
+        PROPS[_id] = _m.CFG
+        TEXT[_id] = _m.TEXT
